@@ -13,6 +13,10 @@ MCTargets2 == {T1, TC1}
 MCSenders2 == {S1, SC1}
 MCSendersC == {SC1, SC2}
 MCSenders1 == {SC1}
+\* senders on different nodes that happen to have the same id (forwarded senders carry foreign addresses)
+SD1 == [a |-> "n1", i |-> "s/1"]
+SD2 == [a |-> "n2", i |-> "s/1"]
+MCSendersD == {SD1, SD2}
 MCTargetsC == {TC1, TC2}
 MCTypes1 == {"remote.TestMessage"}
 MCData1 == {"d1"}
